@@ -214,9 +214,25 @@ def t_hand_cases(c09, rng):
     return out
 
 
-def t_request(c):
+def probe_cut32(c09, bdir, wd):
+    """self-calibration: does pseudo_store still hand the value to its callbacks through a 32-bit parameter
+    (`byte 100000001h` accepted and laid as 0001: True) or range-check the full-width value (statement refused: False)?"""
+    rc, out, data = c09.assemble(bdir, wd, "probe_cut32", "\tcpu 320c25\n\torg 100h\n\tbyte 100000001h\n\tword 55aah\n")
+    if rc != 0:
+        # the repaired code reports 'range overflow' for the first statement; make sure that is the reason
+        rc2, out2, data2 = c09.assemble(bdir, wd, "probe_cut32b", "\tcpu 320c25\n\torg 100h\n\tbyte 1\n\tword 55aah\n")
+        return False if rc2 == 0 and data2 is not None else None
+    if data is None:
+        return None
+    for seg, gran, start, bs in c09_ext.parse_records(data) or []:
+        if start == 0x100 and bs[:4] in (b"\x01\x00\xaa\x55", b"\x00\x01\x55\xaa"):
+            return True
+    return None
+
+
+def t_request(c, cut=False):
     t = c["tgt"]
-    toks = [t["key"], str(t["seg"]), t["typ"], str(t["bits"]), t["pack"], str(c["pc0"]), str(len(c["csops"]))]
+    toks = ["cut=1" if cut else "cut=0", t["key"], str(t["seg"]), t["typ"], str(t["bits"]), t["pack"], str(c["pc0"]), str(len(c["csops"]))]
     for o in c["csops"]:
         toks += c09_ext.ser_csop(o)
     toks.append(str(len(c["tstmts"])))
@@ -232,13 +248,17 @@ def t_request(c):
     return " ".join(toks)
 
 
-def t_classify(c):
+def t_classify(c, cut32=True):
     """signature of the input class of a spec failure"""
     if c["real"] != "ERR":
         # accepted although an integer is out of range: every such integer is out of the 32-bit range as well
-        # (its low 32 bits were what the range check saw)
+        # (its low 32 bits were what the range check saw).  Since /repo commit 5ab0322 (probe cut32 = False) only LONG
+        # (wr_code_long: no range check at all) is left of that class - a defect the probe shows to be absent
+        # cannot explain a failure of the other statements.
         bad = [(st["op"], a[1]) for st in c["tstmts"] if st["op"] != "D" for a in st["args"]
                if a[0] == "i" and not (-(1 << (OPS[st["op"]]["bits"] - 1)) <= a[1] < (1 << OPS[st["op"]]["bits"]))]
+        if not cut32 and any(op != "L" for op, _ in bad):
+            return None
         if bad and all(not (-(1 << 31) <= v < (1 << 31)) for _, v in bad):
             return "ti-pseudo-store-value-cut-to-32-bit-before-range-check"
     return None
@@ -269,11 +289,14 @@ def run_part(c09, args, bdir, wd, ok, probes):
                 corr_fail.append(dict(tag="harness", why=p))
             bno += 1
             all_cases += batch
+    cut32 = probe_cut32(c09, bdir, wd)
+    if cut32 is None:
+        problems.append("self-calibration probe cut32 failed (`byte 100000001h` on the 320C25 neither assembles to 0001 nor is refused alone)")
     reqs, metas = [], []
     for c in all_cases:
         if c["real"] == "LOST":
             continue
-        reqs.append(t_request(c))
+        reqs.append(t_request(c, bool(cut32)))
         metas.append(c)
     answers = common.driver("c09t", reqs, timeout=3600) if ok and reqs else []
     n = 0
@@ -296,8 +319,14 @@ def run_part(c09, args, bdir, wd, ok, probes):
             problems.append("driver rejected a request: %s / %s" % (ans, rq[:300]))
             continue
         realtxt = c["real"] if isinstance(c["real"], str) else [(o, bb.hex()) for o, bb in c["real"]]
+        # hypothesis of the whole-slot theorem C09_ti_slot_model_eq_spec evaluated by the driver on this case
+        dist["t-theorem-hypothesis:" + ("met" if kv.get("pre") == "1" else "not-met")] += 1
+        if kv.get("thm") != "ok":
+            problems.append("C09_ti_slot_model_eq_spec contradicted by the executable definitions: %s / %s" % (ans[:200], rq[:300]))
+        if kv.get("pre") == "1" and kv["model"] == "eq" and kv["spec"] != "ok":
+            problems.append("case inside the proved domain (model = spec) with model = real but spec != real: %s" % rq[:300])
         if kv["spec"] != "ok":
-            sig = t_classify(c) if kv["model"] == "eq" else None
+            sig = t_classify(c, cut32 is not False) if kv["model"] == "eq" else None
             known_hits[str(sig)] += 1
             spec_fail.append(dict(sig=sig, target=t["name"], source=c["source"], request=rq, mode="c09t",
                                   why="real output differs from the specification of STRING/RSTRING/BYTE/WORD/LONG (each element in its own lane): real=%s spec(units)=%s"
@@ -306,4 +335,4 @@ def run_part(c09, args, bdir, wd, ok, probes):
             corr_fail.append(dict(tag="TI-pseudo", target=t["name"], source=c["source"], request=rq, mode="c09t",
                                   why="real output differs from the Lean model: real=%s model=%s" % (realtxt, kv.get("mout", "?"))))
     return dict(spec_fail=spec_fail, corr_fail=corr_fail, evaluations=len(answers), distinct=distinct, dist=dist, stats=stats,
-                samples=samples, problems=problems, known_hits=known_hits, probes={})
+                samples=samples, problems=problems, known_hits=known_hits, probes=dict(cut32=cut32))
